@@ -424,3 +424,44 @@ func VerifC08LivingJob(h *verifh.H) {
 	run("last run")
 	h.Observe("dst", vJoinS(vListing(hub, "dst")))
 }
+
+// VerifC08WriterRace: two clients write to the source dataset at the same time
+// while an incremental job run reads it (three threads, symbolic schedule with
+// every lock acquisition, transaction start and commit statement a scheduling
+// point). Whatever the interleaving, the job's token never runs past a change
+// that was not yet visible: after the writers are done and the job has run
+// again, the sink's latest view equals the source's — nothing is skipped for
+// good.
+func VerifC08WriterRace(h *verifh.H) {
+	hub := server.VerifNewHub(h)
+	src, err := hub.Dsm.CreateDataset("src", nil)
+	h.Assert(err == nil, "create src")
+	_, err = hub.Dsm.CreateDataset("dst", nil)
+	h.Assert(err == nil, "create dst")
+	mk := func(id, tag string) *server.Entity {
+		e := server.NewEntity(id, 0)
+		e.Properties["ns0:tag"] = tag
+		return e
+	}
+	h.Assert(src.StoreEntities([]*server.Entity{mk("ns0:e0", "w0")}) == nil, "first write")
+	run := func() error {
+		ds := &source.DatasetSource{DatasetName: "src", Store: hub.Store, DatasetManager: hub.Dsm}
+		pl := &IncrementalPipeline{PipelineSpec{source: ds, sink: &datasetSink{DatasetName: "dst", Store: hub.Store, DatasetManager: hub.Dsm}, batchSize: 2}}
+		j := &job{id: "copy", title: "copy", pipeline: pl, runner: vRunner(hub, 1, 1)}
+		_, err := pl.sync(j, context.Background())
+		return err
+	}
+	h.Assert(run() == nil, "first run")
+	var e1, e2, e3 error
+	h.SymbolicLocks()
+	h.SymbolicTxns()
+	h.SymbolicSched(h.Param("preemptions", 2))
+	h.Go(func() { e1 = src.StoreEntities([]*server.Entity{mk("ns0:e1", "a")}) })
+	h.Go(func() { e2 = src.StoreEntities([]*server.Entity{mk("ns0:e2", "b")}) })
+	h.Go(func() { e3 = run() })
+	h.Assert(h.Wait(), "writers and the run complete")
+	h.Assert(e1 == nil && e2 == nil && e3 == nil, "writes and the run succeed")
+	h.Assert(run() == nil, "catch-up run")
+	h.Assert(vJoinS(vListing(hub, "dst")) == vJoinS(vListing(hub, "src")), "after the writers are done and the job has run again the sink's latest view equals the source's :: dst="+vJoinS(vListing(hub, "dst"))+" src="+vJoinS(vListing(hub, "src")))
+	h.Observe("dst", vJoinS(vListing(hub, "dst")))
+}
